@@ -368,6 +368,40 @@ pub fn sweep(quick: bool) -> SweepResult {
     merge(&mut total, run_requests(reqs, Duration::from_secs(20)));
     bounds.push(json!({"family": "pumps", "families": crate::parse_mc::PUMPS.len(), "sizes": sizes, "compilations": n3}));
 
+    // family 4: diagnostics whose range spans h lines (the renderer abbreviates tall ranges and sizes its gutter by the
+    // last line number), for every height and several start lines, around the 2/3/4-digit line-number boundaries
+    let mut reqs = Vec::new();
+    let heights: Vec<usize> = if quick { (1..=34).collect() } else { (1..=120).collect() };
+    let starts: &[usize] = if quick { &[0, 1, 2, 5, 88, 95, 996] } else { &[0, 1, 2, 3, 4, 5, 9, 80, 88, 90, 95, 97, 98, 99, 100, 990, 996, 999] };
+    for &h in &heights {
+        for &start in starts {
+            for kind in 0..3 {
+                let mut text = String::new();
+                for i in 0..start {
+                    text.push_str(&format!("// filler line {i}\n"));
+                }
+                let inner: String = (0..h.saturating_sub(2)).map(|i| format!("        y{i} := {i};\n")).collect();
+                match kind {
+                    // a warning on a tall `if` (condition is always false)
+                    0 => text.push_str(&format!("main :: () {{ if false {{\n{inner}    }}\n}}\n")),
+                    // an error on a tall struct literal (missing member)
+                    1 => {
+                        let members: String = (0..h.saturating_sub(2)).map(|i| format!("        m{i} = {i},\n")).collect();
+                        let decl: String = (0..h.saturating_sub(2)).map(|i| format!("m{i}: i32, ")).collect();
+                        text.push_str(&format!("main :: () {{ s := S.{{\n{members}    }};\n}}\nS :: struct {{ {decl} last: i32 }};\n"));
+                    }
+                    // a type mismatch on a tall block
+                    _ => text.push_str(&format!("main :: () {{ x : bool = {{\n{inner}        5\n    }};\n}}\n")),
+                }
+                id += 1;
+                reqs.push(Request::single(id, &text));
+            }
+        }
+    }
+    let n4 = reqs.len();
+    merge(&mut total, run_requests(reqs, Duration::from_secs(20)));
+    bounds.push(json!({"family": "tall-diagnostics", "heights": format!("1..={}", heights.last().unwrap()), "start_lines": starts, "kinds": 3, "compilations": n4}));
+
     SweepResult { acc: total, bounds }
 }
 
